@@ -78,6 +78,7 @@ def run_shard(shard, ctx):
 def one_case(ctx, alg, cfg, name, op, force_keysets=None):
     import sympy
     rng = ctx.rng
+    force_unit_vector = False
     to = CASE_TIMEOUT[ctx.tier]
     canon = tuple(alg.canon2bin.values())
     arity = 2 if (op in ops.BINARY or op in TWO_STEP) else 1
@@ -101,6 +102,11 @@ def one_case(ctx, alg, cfg, name, op, force_keysets=None):
         # a single non-scalar blade squares to a scalar in every algebra: exp is defined
         nonsc = [k for k in canon if k]
         keysets = [(rng.choice(nonsc),)]
+        unit_pairs = [(k1, k2) for k1 in canon for k2 in canon if k1 < k2 and bin(k1).count('1') == bin(k2).count('1') == 1
+                      and alg.signs[k1, k1] == alg.signs[k2, k2] != 0]
+        if unit_pairs and rng.random() < 0.4:
+            keysets = [rng.choice(unit_pairs)]
+            force_unit_vector = True
     elif op == 'sqrt':
         nonsc = [k for k in canon if k]
         keysets = [(0, rng.choice(nonsc))]
@@ -121,9 +127,20 @@ def one_case(ctx, alg, cfg, name, op, force_keysets=None):
         keysets[1] = keysets[0] if (graded or rng.random() < 0.7) else gen.permuted(rng, keysets[0])     # graded mode: canonical order only
     names = rng.sample(NAMES, sum(len(k) for k in keysets))
     sym_vals, num_vals, point = [], [], {}
+    if force_unit_vector and not graded and force_keysets is None:
+        # cos(t) e_i + sin(t) e_j: its square only becomes the number +-1 after simplification
+        import math
+        tname = names[0]
+        tval = gen.small_frac(rng, nonzero=True)
+        tsym = sympy.Symbol(tname)
+        point[tname] = tval
+        sym_vals.append([sympy.cos(tsym), sympy.sin(tsym)])
+        num_vals.append([math.cos(float(tval)), math.sin(float(tval))])
+        mode = 'funcs'
+        ctx.count('exp_of_a_unit_vector_with_cos_sin_coefficients')
     ni = 0
-    partition = []
-    for ks in keysets:
+    partition = [['func', 'func']] if sym_vals else []
+    for ks in (keysets if not sym_vals else []):
         sv, nv, part = [], [], []
         for j, k in enumerate(ks):
             val = gen.small_frac(rng, nonzero=True)
@@ -222,6 +239,11 @@ def one_case(ctx, alg, cfg, name, op, force_keysets=None):
                symbolic_operands=[[str(v) for v in sv] for sv in sym_vals], point={k: str(v) for k, v in point.items()})
     if sts == 'exc':
         ctx.note_raised(rs, op + '-symbolic')
+        # the operator returned a value on the numeric operands: with symbols in their place it has to return one too
+        ctx.count('op_' + op)
+        ctx.case(cid)
+        ctx.violation('operator raises on symbolic operands although it returns on the numeric operands holding the same values', cid + ['symbolic-raises'],
+                      error=f'{type(rs).__name__}: {str(rs)[:160]}', **wit)
         return
     want = mv_dict(rn)
     ctx.count('op_' + op)
